@@ -331,7 +331,8 @@ class RegexConstraint(Constraint):
         """Compile regex pattern once."""
         try:
             self._compiled = re.compile(self.pattern)
-        except re.error as e:
+        except (re.error, OverflowError, RecursionError) as e:
+            # re.compile reports an oversized repeat count (a{99999999999}) as OverflowError
             raise ValueError(f"Invalid regex pattern '{self.pattern}': {e}") from e
 
     def evaluate(self, value: Any, path: str = "") -> ValidationResult:
